@@ -169,6 +169,49 @@ Fixpoint strat_unset (t : stratT) (n : name) : stratT :=
   | (m, x) :: t' => if name_eqb m n then t' else (m, x) :: strat_unset t' n
   end.
 
+(* --- reference flattening of the RIB into FIB next hops (fw/table/rib.go collectNexthopsEnc, as repaired):
+       a prefix with routes of its own gets: its own routes, plus - unless it holds a capture route - the child-inherit
+       routes met on the walk from itself towards the root, the walk stopping after an entry that holds a capture route;
+       per face the minimum cost. A prefix without routes gets no FIB entry from the RIB. --- *)
+Definition has_ci (r : route) : bool := negb (N.land (r_flags r) k_route_flag_child_inherit =? 0).
+Definition has_cap (r : route) : bool := negb (N.land (r_flags r) k_route_flag_capture =? 0).
+Definition captures (l : list route) : bool := existsb has_cap l.
+Fixpoint rib_routes (t : ribT) (n : name) : list route :=
+  match t with [] => [] | (m, rs) :: t' => if name_eqb m n then rs else rib_routes t' n end.
+Fixpoint inherit (t : ribT) (n : name) (k : nat) : list route :=
+  let rs := rib_routes t (firstn k n) in
+  filter has_ci rs ++ (if captures rs then [] else match k with O => [] | S k' => inherit t n k' end).
+Definition contributing (t : ribT) (n : name) : list route :=
+  let own := rib_routes t n in own ++ (if captures own then [] else inherit t n (length n)).
+Fixpoint mc_insert (acc : list (N * N)) (f c : N) : list (N * N) :=
+  match acc with
+  | [] => [(f, c)]
+  | (g, d) :: r => if g =? f then (g, if c <? d then c else d) :: r else (g, d) :: mc_insert r f c
+  end.
+Definition min_cost (rs : list route) : list (N * N) :=
+  fold_left (fun acc r => mc_insert acc (r_face r) (r_cost r)) rs [].
+Definition fib_want (t : ribT) (n : name) : list (N * N) :=
+  match rib_routes t n with [] => [] | _ => min_cost (contributing t n) end.
+
+Fixpoint fib_hops (t : fibT) (n : name) : list (N * N) :=
+  match t with [] => [] | (m, l) :: t' => if name_eqb m n then l else fib_hops t' n end.
+(* FibStrategy.ReplaceNextHopsEnc for one prefix: clear, then insert the given next hops *)
+Fixpoint fib_replace (t : fibT) (n : name) (l : list (N * N)) : fibT :=
+  match t with
+  | [] => match l with [] => [] | _ => [(n, l)] end
+  | (m, x) :: t' => if name_eqb m n then match l with [] => t' | _ => (m, l) :: t' end else (m, x) :: fib_replace t' n l
+  end.
+(* the FIB after table.Rib has re-flattened every prefix with routes at or below [scope] (None: the whole tree);
+   prefixes without routes are left as they are in [f] *)
+Definition in_scope (scope : option name) (n : name) : bool :=
+  match scope with Some nm => is_prefix nm n | None => true end.
+Definition rib_sync (rib' : ribT) (scope : option name) (f : fibT) : fibT :=
+  fold_left (fun acc e => if in_scope scope (fst e) then fib_replace acc (fst e) (fib_want rib' (fst e)) else acc) rib' f.
+(* Rib.CleanUpFace: every route of the face goes; emptied entries disappear *)
+Definition rib_cleanup (t : ribT) (face : N) : ribT :=
+  filter (fun e => match snd e with [] => false | _ => true end)
+         (map (fun e => (fst e, filter (fun r => negb (r_face r =? face)) (snd e))) t).
+
 (* --- faces --- *)
 Fixpoint face_get (l : list faceT) (id : N) : option faceT :=
   match l with [] => None | f :: l' => if f_id f =? id then Some f else face_get l' id end.
